@@ -450,7 +450,7 @@ func genEngine(r *hx.Rand, tier string) input {
 }
 
 func gen(r *hx.Rand, tier string) []json.RawMessage {
-	n := 700
+	n := 350
 	if tier == "thorough" {
 		n = 8000
 	}
